@@ -67,7 +67,16 @@ def _finish(pid, tier, seed, t0, outs, mc_stats, rule, assumptions, extra_cov=No
               % (pid, path, v['clause'], v['at'], ','.join(v.get('also', []))))
         reported += 1
     demos = hunt_demos(pid)
+    open_demo = {os.path.basename(os.path.dirname(k.get('demo', ''))): k for k in kfs.values()
+                 if k.get('status') == 'open' and k.get('demo')}
     for name, rc, tail in demos:
+        if name in open_demo:
+            # an open known finding identified by its demonstration: reported as such while it still fails
+            if rc == 1:
+                print(open_demo[name]['line'] + ' [%s; hunts/%s/demo.py]' % (open_demo[name]['id'], name))
+            elif rc != 0:
+                machinery.append(('hunts/%s' % name, 'demo ended with status %s: %s' % (rc, tail[-600:])))
+            continue
         if rc == 1:
             print('VIOLATION property=%s replay=%s clause=HuntDemo (the recorded demonstration of a repaired defect fails again: %s)'
                   % (pid, os.path.join(ROOT, 'hunts', name, 'demo.py'), tail[-300:].replace('\n', ' | ')))
@@ -122,7 +131,7 @@ def hunt_demos(pid):
     repo = os.environ.get('FBV_REPO', '/repo')
     out = []
     for name, h in sorted(idx.items()):
-        if h.get('property') != pid or h.get('status') != 'fixed':
+        if h.get('property') != pid or h.get('status') not in ('fixed', 'open'):
             continue
         demo = os.path.join(ROOT, 'hunts', name, 'demo.py')
         rc, tail = None, ''
